@@ -10,11 +10,34 @@ Lemma exec_ng_graph d r ft gt subs n st ins ig isel ieps ift igt isubs hin hout 
   dget subs (n_name n) = Some (NSub (NG ig isel ieps ift igt isubs) hin hout cur_out None) ->
   exec_ng (S d) r ft gt subs n st ins =
   match fst (execute (exec_ng d r ift igt isubs) r default_max_iterations ig (map_inputs_to_params hin ins)) with
-  | RDone s => OOk (gn_map_outputs hout cur_out (filter_outputs ig s isel)) None
+  | RDone s => OOk (with_signals (emit_only d (NG ig isel ieps ift igt isubs)) hout cur_out
+                                  (gn_map_outputs hout cur_out (filter_outputs ig s isel))) None
   | RFailed e _ => ORaise e
   | RPaused p _ => OPause (mk_pause (n_name n :: p_node p) (p_out p) (p_value p))
   end.
-Proof. intros Hk Hs. simpl. rewrite Hk, Hs. reflexivity. Qed.
+Proof. intros Hk Hs. cbn [exec_ng]. rewrite Hk, Hs. reflexivity. Qed.
+
+(* a wrapped graph without emit-only names exposes exactly the translated inner outputs *)
+Lemma filter_all {A} (f : A -> bool) (l : list A) : (forall x, f x = true) -> List.filter f l = l.
+Proof. intro H. induction l as [|a l IH]; simpl; [reflexivity | rewrite H, IH; reflexivity]. Qed.
+Lemma filter_none {A} (f : A -> bool) (l : list A) : (forall x, f x = false) -> List.filter f l = [].
+Proof. intro H. induction l as [|a l IH]; simpl; [reflexivity | rewrite H; exact IH]. Qed.
+
+Lemma with_signals_none hout cur_out outs : with_signals [] hout cur_out outs = outs.
+Proof.
+  unfold with_signals. rewrite filter_all by reflexivity. rewrite filter_none by reflexivity.
+  simpl. apply app_nil_r.
+Qed.
+
+(* ... and the ordering-only outputs carry the sentinel, so they never appear among returned values *)
+Lemma with_signals_sentinel sig hout cur_out outs c v :
+  In (c, v) (with_signals sig hout cur_out outs) ->
+  pos_in (gn_resolve_original hout c) sig = true -> v = VSentinel.
+Proof.
+  unfold with_signals. intros Hin Hs. apply in_app_or in Hin as [Hin|Hin].
+  - apply filter_In in Hin as [_ Hn]. simpl in Hn. rewrite Hs in Hn. discriminate.
+  - apply in_map_iff in Hin as [c' [E _]]. congruence.
+Qed.
 
 (* the executor of a GraphNode does not look at the outer run's state: a nested graph is a function
    node whose function is "run the inner graph" — so every engine theorem (C01, C02, ...) applies to
